@@ -120,13 +120,20 @@ class ProtocolHandler(abc.ABC):
             cmd_id, _, rx_schema = self.COMMANDS[name]
 
             future = asyncio.get_running_loop().create_future()
-            self._awaiting[self._seq] = (cmd_id, rx_schema, future)
+            seq = self._seq
+            self._awaiting[seq] = (cmd_id, rx_schema, future)
             self._seq = (self._seq + 1) % 256
 
-            await self._gw.send_data(data)
+            try:
+                await self._gw.send_data(data)
 
-            async with asyncio_timeout(EZSP_CMD_TIMEOUT):
-                return await future
+                async with asyncio_timeout(EZSP_CMD_TIMEOUT):
+                    return await future
+            finally:
+                # Once the command is over nothing is waiting for this sequence number
+                # anymore: do not let a stale entry swallow a later frame
+                if seq in self._awaiting and self._awaiting[seq][2] is future:
+                    del self._awaiting[seq]
 
     async def update_policies(self, policy_config: dict) -> None:
         """Set up the policies for what the NCP should do."""
